@@ -150,3 +150,236 @@ def option_sets(model_id, tier):
                 {"reduce_affine_expression": True, "detect_aliases": True, "replace_parameter_values": True, "replace_constant_values": True,
                  "eliminate_constant_assignments": True}]
     return out
+
+
+# =================================================================================================
+# Extended C14 families (models_ext).  models()/option_sets()/ELIM_RE above stay as they are because
+# the C15 harness indexes into them; everything below is reached only through models_ext().
+#
+# Each entry is (model_id, text, option_sets).  Three classes:
+#   link:*    an algebraic alias class tied to TWO non-eliminable variables (state, der-state, input,
+#             parameter, constant) - directly or through a signed chain - in several equation orders;
+#             plus alias cycles among algebraic variables only (redundant and contradictory).
+#   orient:*  the three pattern-matched eliminations (constant assignment, alias, eliminable-variable
+#             assignment) with the defining equation written in every orientation
+#             (V = E, E = V, V - E = 0, E - V = 0, V + (-E) = 0, -V = -E, scaled, ...).
+#   scale:*   affine, badly scaled systems: a coefficient of magnitude 2^-40 .. 2^30 written as a literal,
+#             parameter, constant or product in front of a state / der-state / algebraic / input, for
+#             reduce_affine_expression with and without numeric substitution of parameters/constants.
+# =================================================================================================
+
+def _sg(s, term):
+    return ("-" if s < 0 else "") + term
+
+
+def _tag(signs):
+    return "".join("+" if s > 0 else "-" for s in signs)
+
+
+# ---- link -------------------------------------------------------------------------------------------
+LINK_HEADS = {"x": "x", "s": "s", "u": "u", "v": "v", "p": "p", "p2": "p2", "c": "c", "ders": "der(s)"}
+LINK_PAIRS_MAIN = [("x", "u"), ("u", "v"), ("x", "s"), ("ders", "u"), ("x", "p")]
+LINK_PAIRS_MORE = [("u", "c"), ("p", "p2"), ("p", "c"), ("x", "ders"), ("x", "x"), ("u", "u")]
+
+
+def link_model(alias_eqs, ydef):
+    return ("model S\n  parameter Real p = 2;\n  parameter Real p2 = 2;\n  constant Real c = 2;\n"
+            "  input Real u;\n  input Real v;\n  Real x(start = 1);\n  Real s(start = 0);\n  Real a, b, d, y;\n"
+            "equation\n  der(x) = -p * x + y;\n  der(s) = x - 3 * s + d;\n  d = 2 * y + u;\n" +
+            "".join(f"  {e};\n" for e in alias_eqs) + f"  y = {ydef};\nend S;\n")
+
+
+def _orders(n, tier):
+    perms = list(itertools.permutations(range(n)))
+    if tier == "quick":
+        keep = {tuple(range(n)), tuple(reversed(range(n)))}
+        perms = [p for p in perms if p in keep]
+    return perms
+
+
+def link_models(tier):
+    out = []
+    for pi, (h1, h2) in enumerate(LINK_PAIRS_MAIN + LINK_PAIRS_MORE):
+        main = pi < len(LINK_PAIRS_MAIN)
+        thin = tier == "quick" and not main
+        H1, H2 = LINK_HEADS[h1], LINK_HEADS[h2]
+        # direct: a = +/-H1; a = +/-H2
+        for signs in itertools.product((1, -1), repeat=2):
+            if thin and signs[0] < 0:
+                continue
+            eqs = [f"a = {_sg(signs[0], H1)}", f"a = {_sg(signs[1], H2)}"]
+            for od in _orders(2, tier):
+                out.append((f"link:direct:{h1},{h2}:{_tag(signs)}:o{''.join(map(str, od))}",
+                            link_model([eqs[i] for i in od] + ["b = 2 * a - 1"], "3 * a - b + 1")))
+        # chain: a = +/-H1; b = +/-H2; a = +/-b  (the last one links the two classes)
+        for signs in itertools.product((1, -1), repeat=3):
+            if thin and signs not in ((1, 1, 1), (1, -1, -1), (-1, 1, -1)):
+                continue
+            eqs = [f"a = {_sg(signs[0], H1)}", f"b = {_sg(signs[1], H2)}", f"a = {_sg(signs[2], 'b')}"]
+            for od in _orders(3, tier)[:1 if thin else None]:
+                out.append((f"link:chain:{h1},{h2}:{_tag(signs)}:o{''.join(map(str, od))}",
+                            link_model([eqs[i] for i in od], "3 * a - b + 1")))
+    # alias cycles among algebraic variables only: product of signs +1 = redundant (one degree of freedom
+    # on both sides), -1 = contradictory (a = b = 0)
+    for signs in itertools.product((1, -1), repeat=2):
+        eqs = [f"a = {_sg(signs[0], 'b')}", f"a = {_sg(signs[1], 'b')}"]
+        out.append((f"link:cycle2:{_tag(signs)}", link_model(eqs, "3 * a - b + 1")))
+    for signs in itertools.product((1, -1), repeat=3):
+        if tier == "quick" and signs[0] < 0:
+            continue
+        eqs = [f"a = {_sg(signs[0], 'b')}", f"b = {_sg(signs[1], 'd2')}", f"d2 = {_sg(signs[2], 'a')}"]
+        text = link_model(eqs, "3 * a - b + d2 + 1").replace("Real a, b, d, y;", "Real a, b, d, d2, y;")
+        out.append((f"link:cycle3:{_tag(signs)}", text))
+    return out
+
+
+def _contradictory(mid):
+    return mid.startswith("link:cycle") and mid.split(":")[2].count("-") % 2 == 1
+
+
+def link_option_sets(mid, tier):
+    da = {"detect_aliases": True}
+    cyc = mid.startswith("link:cycle")
+    six = {k: True for k in SIX if k != "eliminable_variable_expression"}
+    six.update({"eliminable_variable_expression": "^y$" if cyc else "^(a|b)$", "expand_mx": True})
+    if _contradictory(mid):
+        # every option set containing detect_aliases behaves the same on these (known finding): keep the list short
+        return [da, six] if mid == "link:cycle2:+-" else [da]
+    out = [da, six]
+    main = cyc or any(mid.split(":")[2] == f"{a},{b}" for a, b in LINK_PAIRS_MAIN)
+    first = cyc or mid.endswith(":o01") or mid.endswith(":o012")
+    if tier != "quick" or (main and first):
+        out += [dict(da, expand_mx=True),
+                dict(da, eliminate_constant_assignments=True, replace_constant_values=True),
+                dict(da, allow_derivative_aliases=False),
+                dict(da, replace_parameter_values=True, replace_constant_values=True, reduce_affine_expression=True)]
+    if tier != "quick" and main:
+        out += [dict(da, expand_vectors=True), dict(da, factor_and_simplify_equations=True),
+                dict(da, iterative_simplification=True),
+                dict(da, eliminable_variable_expression="^y$" if cyc else "^(a|b)$", expand_mx=True)]
+    return out
+
+
+# ---- orient -----------------------------------------------------------------------------------------
+# {V} variable, {E} defining expression, {N} its negation; {Ep}/{Np} parenthesised
+ORIENT_FORMS = [
+    ("V=E", "{V} = {E}"), ("E=V", "{E} = {V}"),
+    ("V-E=0", "{V} - {Ep} = 0"), ("E-V=0", "{Ep} - {V} = 0"),
+    ("0=V-E", "0 = {V} - {Ep}"), ("0=E-V", "0 = {Ep} - {V}"),
+    ("V+N=0", "{V} + {Np} = 0"), ("N+V=0", "{Np} + {V} = 0"),
+    ("0=V+N", "0 = {V} + {Np}"),
+    ("-V=N", "-{V} = {N}"), ("N=-V", "{N} = -{V}"),
+    ("k(V-E)=0", "2 * ({V} - {Ep}) = 0"), ("(V-E)/k=0", "({V} - {Ep}) / 4 = 0"),
+    ("kV=kE", "2 * {V} = 2 * {Ep}"), ("-(V-E)=0", "-({V} - {Ep}) = 0"),
+]
+ORIENT_CONSTS = [("3.0", "-3.0"), ("-0.25", "0.25"), ("0", "0"), ("1.5e-3", "-1.5e-3")]
+ORIENT_ELIM_RE = "^g$"
+
+
+def _fill(form, V, E, N):
+    return form.format(V=V, E=E, N=N, Ep=f"({E})", Np=f"({N})")
+
+
+def orient_model(form, cst, alias_sign):
+    E, N = cst
+    eqs = [_fill(form, "b", E, N),
+           _fill(form, "d", _sg(alias_sign, "e"), _sg(-alias_sign, "e")),
+           _fill(form, "g", "3 * x - u", "u - 3 * x")]
+    return ("model S\n  parameter Real p = 2;\n  input Real u;\n  Real x(start = 1);\n  Real b, d, e, g, y;\n"
+            "equation\n  der(x) = -p * x + y;\n" + "".join(f"  {e};\n" for e in eqs) +
+            "  e = 2 * x + u;\n  y = 2 * b + d + g * x + x;\nend S;\n")
+
+
+def orient_models(tier):
+    out = []
+    for fname, form in ORIENT_FORMS:
+        for ci, cst in enumerate(ORIENT_CONSTS):
+            for sgn in (1, -1):
+                if tier == "quick" and (ci, sgn) not in ((0, 1), (1, -1), (2, 1)):
+                    continue
+                out.append((f"orient:{fname}:c={cst[0]}:alias{_tag((sgn,))}", orient_model(form, cst, sgn)))
+    return out
+
+
+def orient_option_sets(mid, tier):
+    eve = {"eliminable_variable_expression": ORIENT_ELIM_RE, "expand_mx": True}
+    eca, rcv, da, fase = ({"eliminate_constant_assignments": True}, {"replace_constant_values": True},
+                          {"detect_aliases": True}, {"factor_and_simplify_equations": True})
+    allsix = dict(eve, **{k: True for k in SIX if k != "eliminable_variable_expression"})
+    short = [eca, dict(eca, **rcv), da, dict(eve), dict(fase, **eca, **rcv), dict(fase, **da), dict(eca, **rcv, **da), allsix]
+    if tier == "quick" or not (mid.endswith(":c=3.0:alias+") or mid.endswith(":c=-0.25:alias-")):
+        return short
+    out = []
+    for bits in itertools.product((False, True), repeat=6):
+        o = {}
+        for name, b in zip(SIX, bits):
+            if b:
+                o.update(eve if name == "eliminable_variable_expression" else {name: True})
+        if o:
+            out.append(o)
+    return out + [{"expand_mx": True, "eliminate_constant_assignments": True, "detect_aliases": True},
+                  {"iterative_simplification": True, "detect_aliases": True, "eliminate_constant_assignments": True,
+                   "replace_constant_values": True}]
+
+
+# ---- scale ------------------------------------------------------------------------------------------
+def _pow2(e):
+    return repr(2.0 ** e)
+
+
+# (tag, small coefficient, big factor): products small * big are exactly 1/4 in binary floating point for the 2^k rows
+SCALE_MAGS = [("2^-30", _pow2(-30), _pow2(28)), ("-2.5e-9", "-2.5e-9", "4.0e8"), ("2^-27", _pow2(-27), _pow2(25)),
+              ("2^-26", _pow2(-26), _pow2(24)), ("2^-40", _pow2(-40), _pow2(38)), ("2^30", _pow2(30), _pow2(-32)),
+              ("1e-12", "1.0e-12", "2.5e11")]
+SCALE_WHERE = ["literal", "parameter", "constant", "product"]
+SCALE_TARGETS = {"alg": "h", "state": "x", "input": "u", "der": "der(x)"}
+
+
+def scale_model(where, small, big, target):
+    k, c = "1", "1"
+    if where == "literal":
+        coef = small
+    elif where == "parameter":
+        k, coef = small, "k"
+    elif where == "constant":
+        c, coef = small, "c"
+    else:  # product of a parameter and a constant
+        k, c, coef = small, "0.5", "2 * k * c"
+    # NOTE: no initial equations here: reduce_affine_expression on a model that has both equation lists yields
+    # residual Functions that cannot be constructed (C15's subject), which would leave nothing to compare.
+    return (f"model S\n  parameter Real k = {k};\n  constant Real c = {c};\n  input Real u;\n  Real x(start = 1);\n  Real q, h, w;\n"
+            f"equation\n  der(x) = q - x;\n  h = {big} * x + {big} * u + {big};\n  q = {coef} * {target} + 0.5;\n"
+            f"  w = q + {coef};\nend S;\n")
+
+
+def scale_models(tier):
+    out = []
+    mags = SCALE_MAGS[:2] if tier == "quick" else SCALE_MAGS
+    for tag, small, big in mags:
+        for where in SCALE_WHERE:
+            for tk, target in SCALE_TARGETS.items():
+                if tier == "quick" and where == "product" and tk != "alg":
+                    continue
+                out.append((f"scale:{tag}:{where}:{tk}", scale_model(where, small, big, target)))
+    return out
+
+
+def scale_option_sets(mid, tier):
+    raf = {"reduce_affine_expression": True}
+    rp, rc = {"replace_parameter_values": True}, {"replace_constant_values": True}
+    out = [dict(raf, **rp, **rc), dict(raf, **rp), dict(raf, **rc), raf,
+           dict(raf, **rp, **rc, detect_aliases=True, eliminate_constant_assignments=True, expand_mx=True)]
+    if tier != "quick":
+        out += [dict(raf, replace_parameter_expressions=True, replace_constant_expressions=True, **rp, **rc),
+                dict(raf, resolve_parameter_values=True), dict(raf, **rp, **rc, expand_vectors=True),
+                dict(raf, **rp, **rc, factor_and_simplify_equations=True), dict(rp, **rc), {"expand_mx": True, **rp, **rc}]
+    return out
+
+
+def models_ext(tier):
+    """[(model_id, text, [option sets])] for the link / orient / scale classes."""
+    out = []
+    for fam, osets in ((link_models, link_option_sets), (orient_models, orient_option_sets), (scale_models, scale_option_sets)):
+        for mid, text in fam(tier):
+            out.append((mid, text, osets(mid, tier)))
+    return out
